@@ -277,7 +277,9 @@ def cell_value(label_upper):
         return 0
     if h == 4:
         return 0.5
-    return h - 4             # 1..15
+    if h == 5:
+        return 'abc'         # text: arithmetic on it is #VALUE! (an error VALUE: the references after it are still evaluated)
+    return h - 4             # 2..15
 
 
 def range_value(l1, l2):
